@@ -19,8 +19,25 @@ from ..gen_graph import gen_history, reachable_state
 
 PROPERTY = "C04"
 DRIVER = "drv_online"
-THEOREMS = []
-PARTIAL = {}
+THEOREMS = [
+    "C04.single_txn",
+    "C04.per_migration",
+    "C04.nontransactional",
+    "C04.recorded_exactly_completed",
+    "C04.rows_at_boundary",
+    "C04.never_names_failed",
+    "C04.failure_propagates",
+    "C04.earlier_effects_durable",
+    "C04.model_satisfies_check",
+    "C04.single_txn_autocommit_block_commits",
+]
+PARTIAL = {
+    "C04.single_txn": "scope hypothesis: no autocommit_block is entered before the failure. autocommit_block commits the enclosing "
+                      "transaction by design (documented warning), witnessed by C04.single_txn_autocommit_block_commits; the row-level "
+                      "claims (rows_at_boundary, never_names_failed, nontransactional) are proved WITH autocommit blocks",
+    "C04.per_migration": "scope hypothesis: the failed migration entered no autocommit_block before the failure (earlier migrations may); "
+                         "exact state equality needs the `transactional` backend mode, which is validated live only on SQLite with the BEGIN recipe",
+}
 TRUSTED = [
     "the three DDL modes of Model.Online.execStmt are a model of backends: `pysqlite` (sqlite3 legacy transaction control) and "
     "`transactional` (SQLite with the documented BEGIN recipe) are validated live on every run; `autocommitDDL` (MySQL/Oracle: DDL "
@@ -45,6 +62,7 @@ ASSUMPTIONS = [
     "an external caller wraps the run in `with connection.begin():` (rollback on exception)",
 ]
 
+PLAN_ERRORS = {"err:multipleHeads", "err:resolution", "err:rangeNotAncestor", "err:revisionError", "err:commandError"}
 ENGINE_MODE = {"pysqlite": "pysqlite", "recipe": "transactional"}
 
 
@@ -94,7 +112,7 @@ def gen_script(rng, max_n):
             r["down"] = [hist[i - 1]["id"]] if i else []
         shape = "linear"
     else:
-        hist = gen_history(rng, n, labels=False, deps=False)
+        hist = gen_history(rng, n, labels=False, deps=False, p_merge=0.4)
         shape = "branched" if any(len(r["down"]) > 1 for r in hist) or sum(1 for r in hist if not r["down"]) > 1 or \
             len({tuple(r["down"]) for r in hist if r["down"]}) < sum(1 for r in hist if r["down"]) else "linear"
     ids = [r["id"] for r in hist]
@@ -172,7 +190,13 @@ def script_cases(ctx, script, configs, runner="inprocess", cfg_obj=None, scratch
         res, orc, fin = execute(config, None)
         ctx.evaluation()
         if res != "ok" and not (res == "err:assertion" and config.get("external")):
-            ctx.hist("reference_run", res)  # e.g. multiple heads for the chosen target: not this property's business
+            ctx.hist("reference_run", res)
+            if res not in PLAN_ERRORS:
+                # the run without any injected failure raised something that is not a plan-resolution error
+                # (those - multiple heads for the chosen target etc. - are not this property's business):
+                # the model says such a run completes
+                ctx.disagree("online.reference", {"script": script, "config": config}, {"res": res, "final": fin},
+                             {"raised": False}, note="run without injected failure raised")
             continue
         if orc.unparsed:
             ctx.disagree("online.parse", {"script": script, "config": config}, {"unparsed": orc.unparsed}, None)
@@ -241,12 +265,17 @@ def judge(ctx, pending):
                      "inside version update" if p < n_atoms(mig) else "after version update")
             ctx.hist("failure_position", where)
             ctx.hist("failed_step_index", impl["eff"][0])
+        if raised and "hyp" in s:
+            ctx.hist("hypotheses_of_model_satisfies_check_hold", s["hyp"])
         if "err" in s:
             ctx.disagree("online.spec", rec, impl, s)
         elif s.get("holds") is not True:
-            why = [k for k, v in s.items() if v is False and k != "holds"]
-            ctx.fail(rec, "out-of-step: after the failure the version table / schema are not as C04 demands (%s)" % ",".join(why),
-                     impl={"res": impl["res"], "final": impl["final"], "failed_at": impl["eff"]}, tags=why)
+            why = [k for k, v in s.items() if v is False and k not in ("holds", "hyp")]
+            if raised:
+                what = "out-of-step: after the failure the version table / schema are not as C04 demands (%s)" % ",".join(why)
+            else:
+                what = "incomplete: a run in which nothing raised did not leave every migration applied and recorded"
+            ctx.fail(rec, what, impl={"res": impl["res"], "final": impl["final"], "failed_at": impl["eff"]}, tags=why)
         if i < 2:
             ctx.sample({"config": meta["config"], "runner": meta["runner"], "cmd": meta["script"]["cmd"], "target": meta["script"]["target"],
                         "history": meta["script"]["hist"], "plan": inp["plan"], "fail": inp["fail"], "db_before": inp["db"],
@@ -254,7 +283,7 @@ def judge(ctx, pending):
     pending.clear()
 
 
-def run_script(ctx, script, configs, pending, runner="inprocess"):
+def run_script(ctx, script, configs, pending, runner="inprocess", flush=True):
     rev_index = {r["id"]: i for i, r in enumerate(script["hist"])}
     with oi.Scratch() as scratch:
         base = prepare_base(scratch, script, rev_index)
@@ -268,7 +297,7 @@ def run_script(ctx, script, configs, pending, runner="inprocess"):
         for case in script_cases(ctx, script, configs, runner, cfg_obj, scratch, base):
             pending.append(case)
             ctx.hist("steps", len(case[0]["plan"]))
-    if len(pending) > 2000:
+    if flush and len(pending) > 2000:
         judge(ctx, pending)
 
 
@@ -303,26 +332,154 @@ def fixed_scripts():
     return out
 
 
+class _Stub:
+    """what run_script needs from a Ctx, collected in a worker process and merged by the parent"""
+
+    def __init__(self, thorough):
+        self.thorough = thorough
+        self.evaluations = 0
+        self.hists = []
+        self.disagreements = []
+
+    def evaluation(self, n=1):
+        self.evaluations += n
+
+    def hist(self, name, key, n=1):
+        self.hists.append((name, str(key), n))
+
+    def disagree(self, op, input, impl, model, note=""):
+        self.disagreements.append({"op": op, "input": input, "impl": impl, "model": model, "note": note})
+
+
+def _work(job):
+    import warnings
+
+    warnings.filterwarnings("ignore", message="downgrade -1 from multiple heads")
+    script, configs, runner, thorough = job
+    stub = _Stub(thorough)
+    pending = []
+    run_script(stub, script, configs, pending, runner, flush=False)
+    return pending, stub.evaluations, stub.hists, stub.disagreements
+
+
+def run_jobs(ctx, jobs, pending):
+    """jobs: (script, configs, runner).  Thorough tier: a process pool (the cases are independent: own scratch dir,
+    own database file); results are merged and judged in job order, so the outcome does not depend on scheduling."""
+    import warnings
+
+    warnings.filterwarnings("ignore", message="downgrade -1 from multiple heads")
+    jobs = [(s, c, r, ctx.thorough) for s, c, r in jobs]
+    nproc = min(16, os.cpu_count() or 1, len(jobs)) if ctx.thorough else 1
+    if nproc > 1:
+        import multiprocessing as mp
+
+        with mp.get_context("fork").Pool(nproc) as pool:
+            results = pool.imap(_work, jobs, chunksize=1)
+            for res in results:
+                _merge(ctx, res, pending)
+    else:
+        for job in jobs:
+            _merge(ctx, _work(job), pending)
+
+
+def _merge(ctx, res, pending):
+    cases, n_eval, hists, disagreements = res
+    ctx.evaluation(n_eval)
+    for name, key, n in hists:
+        ctx.hist(name, key, n)
+    ctx.disagreements.extend(disagreements)
+    pending.extend(cases)
+    if len(pending) > 3000:
+        judge(ctx, pending)
+
+
+KINDS = [("ddl", False), ("dml", False), ("ddl", True), ("dml", True)]
+
+
+def exhaustive_scripts(max_len=2):
+    """linear history a <- b; every body of <= max_len statements, each statement DDL or DML, alone in a plain
+    segment or alone in an autocommit block; upgrade from base and downgrade to base"""
+    import itertools
+
+    def bodies():
+        for n in range(max_len + 1):
+            for combo in itertools.product(KINDS, repeat=n):
+                yield combo
+
+    def mk(combo, t0):
+        up = []
+        objs = []
+        for i, (kind, auto) in enumerate(combo):
+            e = 2 * (t0 + i) if kind == "ddl" else 2 * (t0 + i) + 1
+            up.append({"auto": auto, "stmts": [[kind, "add", e]]})
+            objs.append((kind, auto, e))
+        down = [{"auto": auto, "stmts": [[kind, "del", e]]} for kind, auto, e in reversed(objs)]
+        return {"up": up, "down": down}
+
+    hist = [{"id": "a", "down": []}, {"id": "b", "down": ["a"]}]
+    for ba in bodies():
+        for bb in bodies():
+            b = {"a": mk(ba, 0), "b": mk(bb, 10)}
+            yield {"hist": hist, "shape": "linear", "cmd": "upgrade", "start": [], "target": "heads", "bodies": b}
+            yield {"hist": hist, "shape": "linear", "cmd": "downgrade", "start": ["heads"], "target": "base", "bodies": b}
+
+
 def run(ctx, n_scripts=None, rng_name="main"):
     rng = ctx.rng(rng_name)
-    n = n_scripts if n_scripts is not None else (120 if ctx.thorough else 10)
+    n = n_scripts if n_scripts is not None else (1200 if ctx.thorough else 18)
     pending = []
     fixed = fixed_scripts()
+    jobs = []
     for s in fixed:
-        run_script(ctx, s, all_configs(rng, True), pending)
+        jobs.append((s, all_configs(rng, True), "inprocess"))
     # the shipped env.py through alembic.command.*: pysqlite default and the recipe installed on Engine
     cmd_cfgs = [{"engine": "pysqlite", "tddl": None, "perMig": False, "external": False},
                 {"engine": "recipe", "tddl": None, "perMig": False, "external": False}]
     for s in fixed:
-        run_script(ctx, s, cmd_cfgs, pending, runner="command")
+        jobs.append((s, cmd_cfgs, "command"))
     for i in range(n):
         script = gen_script(rng, 4 if not ctx.thorough else 6)
-        run_script(ctx, script, all_configs(rng, ctx.thorough), pending)
+        jobs.append((script, all_configs(rng, ctx.thorough), "inprocess"))
         if i % 4 == 0:
-            run_script(ctx, script, cmd_cfgs, pending, runner="command")
+            jobs.append((script, cmd_cfgs, "command"))
+    if ctx.thorough and rng_name == "main":
+        n_ex = 0
+        for script in exhaustive_scripts(2):
+            jobs.append((script, all_configs(rng, True), "inprocess"))
+            n_ex += 1
+        ctx.note("thorough tier: additionally ALL %d scripts over the linear history a<-b whose bodies have <=2 statements "
+                 "(each DDL or DML, plain or in an autocommit block), upgrade and downgrade, x 16 configurations x every "
+                 "failure position: this small domain is enumerated exhaustively" % n_ex)
+    run_jobs(ctx, jobs, pending)
     judge(ctx, pending)
     ctx.exhaustive = False
+    ctx.extra["anchored_source_fingerprints"] = fingerprints()
     ctx.note("failure positions are enumerated exhaustively for every generated script and configuration; scripts are sampled")
+
+
+def fingerprints():
+    """sha1 of the source of the anchored functions (information only; a change is never a violation by itself)"""
+    import hashlib
+    import inspect
+
+    from alembic.runtime import migration as M
+    from alembic.util import sqla_compat as C
+
+    out = {}
+    for name, obj in [
+        ("MigrationContext.begin_transaction", M.MigrationContext.begin_transaction),
+        ("MigrationContext.run_migrations", M.MigrationContext.run_migrations),
+        ("MigrationContext.autocommit_block", M.MigrationContext.autocommit_block),
+        ("_ProxyTransaction.__exit__", M._ProxyTransaction.__exit__),
+        ("HeadMaintainer.update_to_step", M.HeadMaintainer.update_to_step),
+        ("sqla_compat._safe_begin_connection_transaction", C._safe_begin_connection_transaction),
+        ("sqla_compat._ensure_scope_for_ddl", C._ensure_scope_for_ddl),
+    ]:
+        try:
+            out[name] = hashlib.sha1(inspect.getsource(obj).encode()).hexdigest()[:12]
+        except Exception as e:  # pragma: no cover
+            out[name] = "unavailable: %r" % (e,)
+    return out
 
 
 def search(ctx):
